@@ -175,7 +175,7 @@ theorem recordOriginal_leaf (attr : Path) {oldV : JValue N} (v : JValue N) (orig
 theorem setDeep_restoreDeep (toks : Path) :
     ∀ (pre : Path) (cur old v : JValue N) (orig : Orig N), toks ≠ [] → getIn toks cur = some old → isDict old = false →
       ∃ cur', setDeep pre toks cur v orig = .ok (cur', oAdd (pre ++ toks) old orig) ∧
-        restoreDeep toks cur' [(lastTok toks, old)] = .ok cur := by
+        restoreDeep toks cur' [(lastTok toks, old)] = .ok cur ∧ isEmptyVal cur' = false := by
   induction toks with
   | nil => intro _ _ _ _ _ h; exact absurd rfl h
   | cons k ks ih =>
@@ -190,7 +190,7 @@ theorem setDeep_restoreDeep (toks : Path) :
         | some c =>
           simp [hk, getIn] at hget
           subst hget
-          refine ⟨.obj (dSet k v kvs), ?_, ?_⟩
+          refine ⟨.obj (dSet k v kvs), ?_, ?_, rfl⟩
           · simp [setDeep, hk, recordOriginal_leaf _ _ _ hleaf]
           · simp [restoreDeep, lastTok_single, setForce, dSet_cancel v hk]
       | null => simp [getIn] at hget
@@ -206,8 +206,8 @@ theorem setDeep_restoreDeep (toks : Path) :
         | none => simp [hk] at hget
         | some c =>
           simp [hk] at hget
-          obtain ⟨c', hset, hres⟩ := ih (pre ++ [k]) c old v orig (by simp) hget hleaf
-          refine ⟨.obj (dSet k c' kvs), ?_, ?_⟩
+          obtain ⟨c', hset, hres, _⟩ := ih (pre ++ [k]) c old v orig (by simp) hget hleaf
+          refine ⟨.obj (dSet k c' kvs), ?_, ?_, rfl⟩
           · simp [setDeep, hk, hset]
           · rw [lastTok_cons_cons]
             simp [restoreDeep, dGet_dSet_self c' hk, hres, dSet_cancel c' hk]
